@@ -4,6 +4,7 @@ import MsVerif.Driver.OpsTap
 import MsVerif.Driver.OpsPolicy
 import MsVerif.Driver.OpsSpend
 import MsVerif.Driver.OpsSat
+import MsVerif.Driver.OpsText
 
 namespace MsVerif.Driver
 
@@ -39,7 +40,10 @@ def step (st : DState) (line : String) : DState × String :=
             | none =>
               match opsSat st.tables kind op args with
               | some r => (st, r)
-              | none => (st, "bad-op")
+              | none =>
+                match opsText kind op args with
+                | some r => (st, r)
+                | none => (st, "bad-op")
   | _ => (st, "bad-op")
 
 end MsVerif.Driver
